@@ -127,7 +127,12 @@ SPLIT_MASKS = False      # set per job: decide every mask bit up front (keeps th
 
 def sym_array(ctx, name, shape, kind='f', rep='ma', fuzzy=False):
     n = ncells(shape)
-    vs = [ctx.real('%s.d%d' % (name, i), integer=(kind == 'i')) for i in range(n)]
+    vs = [ctx.real('%s.d%d' % (name, i), integer=(kind in ('i', 'u'))) for i in range(n)]
+    if kind == 'u':
+        # unsigned 64-bit data (what the NetCDF reader yields for "Positive Integer"): 0 <= x <= 2^20, so that only the
+        # wrap-around BELOW zero has to be modelled (sums / products of a few cells stay far from 2^64)
+        for v in vs:
+            ctx.assume(z3.And(v >= 0, v <= 2 ** 20))
     d = symnp.ndarray._new(vs, tuple(shape), kind)
     ms = None
     if rep == 'ma':
@@ -386,7 +391,7 @@ def _evnum(m, t, kind):
         return v
     if isinstance(v, str):
         raise symx.Inconclusive("model value not numeric: " + v)
-    if kind == 'i':
+    if kind in ('i', 'u'):
         return int(v)
     return float(v)
 
@@ -448,11 +453,11 @@ def real_summary(rep):
     if rep['ok']:
         s = {'outcome': 'ok', 'exc': None}
         s.update({'type': rep['res'].get('type'), 'shape': rep['res'].get('shape'),
-                  'kind': {'f': 'f', 'i': 'i', 'u': 'i', 'b': 'b'}.get(rep['res'].get('kind'))})
+                  'kind': {'f': 'f', 'i': 'i', 'u': 'u', 'b': 'b'}.get(rep['res'].get('kind'))})
         s['alias'] = rep.get('alias')
     else:
         s = {'outcome': ('mpilot:' if rep['mpilot'] else 'exc:') + rep['exc'], 'exc': rep['exc']}
-    s['after_meta'] = [{'type': a.get('type'), 'shape': a.get('shape'), 'kind': {'f': 'f', 'i': 'i', 'u': 'i', 'b': 'b'}.get(a.get('kind'))}
+    s['after_meta'] = [{'type': a.get('type'), 'shape': a.get('shape'), 'kind': {'f': 'f', 'i': 'i', 'u': 'u', 'b': 'b'}.get(a.get('kind'))}
                        for a in rep.get('inputs_after', [])]
     return s
 
@@ -508,7 +513,7 @@ def compare_run(r, rep, m):
     if rs.get('type') in ('ma', 'nd'):
         if rs['shape'] != rr['shape']:
             return "shape sym=%s real=%s" % (rs['shape'], rr['shape'])
-        if rs['kind'] != {'f': 'f', 'i': 'i', 'b': 'b', 'u': 'i'}.get(rr['kind']):
+        if rs['kind'] != {'f': 'f', 'i': 'i', 'b': 'b', 'u': 'u'}.get(rr['kind']):
             return "dtype sym=%s real=%s" % (rs['kind'], rr['kind'])
         sm = [bool(ev(x)) for x in r.rm]
         if rr['mask'] is not None and sm != rr['mask']:
@@ -1095,7 +1100,8 @@ def oracle_obligations(spec, kw, snap, run, want=('mask', 'value', 'kind', 'type
             margin = z3.And(z3.Not(run.pm[i]), z3.Or(run.pd[i] - ref['vals'][i] > R_MARGIN, ref['vals'][i] - run.pd[i] > R_MARGIN))
             obs.append(term_ob('cell %d: value == reference' % i, wrap(z3.Or(run.pm[i], run.pd[i] == ref['vals'][i])), group='value',
                                neg=(z3.And(pre, margin) if pre is not None else margin)))
-    if 'kind' in want:
+    if 'kind' in want and not any(s_[2] == 'u' for s_ in snap):
+        # (for unsigned inputs only the values are claimed: the property does not say which integer type comes back)
         ek = oracle.expected_kind(spec.name, ref['kind'], [s[2] for s in snap], params)
         if ek is not None:
             obs.append(fact_ob('result element type is %s' % {'i': 'integer', 'f': 'float'}[ek], ('kind_is', j, ek), group='dtype'))
